@@ -353,6 +353,14 @@ fn gen_statement(r: &mut Rng) -> (String, &'static str) {
                 "MATCH (n:Person) SET n.x=3",
                 "MATCH (n:City)\r\nMERGE (z:Z {k: 1})",
                 "OPTIONAL MATCH (n:Person) SET n.x = 4",
+                // keywords have no word boundary in the grammar; write keywords as names
+                "MATCH (n:Person)SET n.x = 3",
+                "MATCH (n:Person) DETACHDELETE n",
+                "MATCH (n:City) DETACH DELETEn",
+                "MATCH (n:Person) RETURN n.x AS created",
+                "MATCH (settings:Person) RETURN settings.x",
+                "MATCH (n:Person) WHERE n.x > 0 RETURN n.x AS deleted ORDER BY deleted",
+                "MATCH (n:Person) WITH n.x AS set RETURN set",
             ];
             ((*r.pick(&forms)).to_string(), "witness")
         }
